@@ -8,7 +8,9 @@
     released together at stop.enter and whoever reaches stop.closing is held until
     the others had the chance to get there (deterministic where 20 000 free trials
     were not), on plain / isolated context scopes, full scopes, shared and isolated
-    children; children created on (and racing with the end of) a done parent.
+    children; children created on (and racing with the end of) a done parent; errors are
+    appended singly and as lists with nil entries in any position (nils are skipped, the
+    rest retained; an all-nil list ends nothing).
 (T) free-running storms of 2-64 goroutines with start/end events of every call are
     validated by Trace_ScopeSignal.tla."""
 import json
